@@ -306,6 +306,19 @@ def build_matrix_builder(kind: str) -> LayerBuilder:
             k += 1
         dm = b.dop(f"bad{k}", b.minmax("A_ASCIISTRING", 1, 4, "ZERO", encoding="SM"))
         _svc2(b, k, f"bad{k}", [b.value("v", dm)], [b.value("v", dm), b.value("post", u8)])
+        k += 1
+        # constants that do not fit their bit length, in the constant prefix and after it
+        rq = b.request(f"rq_bad{k}", [b.coded_const("sid", 0x31), b.coded_const("sub", k), b.coded_const("big", 0x1FF, bits=8),
+                                      b.value("v", u8)])
+        rs = b.response(f"rs_bad{k}", [b.coded_const("sid", 0x71), b.coded_const("sub", k), b.value("v", u8),
+                                       b.coded_const("big", 0x12345, bits=16)])
+        b.service(f"bad{k}", rq, [rs], [])
+        k += 1
+        # a response that echoes more request bytes than the request's constant part provides
+        u16 = b.dop("bad_u16", b.slt(bits=16))
+        rq = b.request(f"rq_bad{k}", [b.coded_const("sid", 0x31), b.coded_const("sub", k), b.value("id", u16)])
+        rs = b.response(f"rs_bad{k}", [b.coded_const("sid", 0x71), b.matching_request("echo", 1, 3), b.value("v", u8)])
+        b.service(f"bad{k}", rq, [rs], [])
     else:
         raise ValueError(kind)
     b.response("gnr", [b.coded_const("sid", 0x7F), b.value("rq_sid", u8), b.coded_const("nrc", 0x78)],
